@@ -7,7 +7,19 @@ cd $WT || exit 3
 git checkout -q -- . ; rm -f $PKG/zz_demo_test.go
 git apply $D/patch.diff || { echo "APPLY FAILED"; exit 3; }
 go build ./... || { echo "BUILD FAILED"; git checkout -q -- .; exit 3; }
-SUITE=$(go test -mod=mod -vet=off -count=1 ./... 2>&1 | grep -v "^ok\|no test files" | head -5)
+go test -mod=mod -vet=off -count=1 ./... > /tmp/confirm_suite.$$ 2>&1
+SUITE=""
+# timing-sensitive packages (trafficshape, root proxy tests) flake when the box is loaded:
+# a package that failed in the full run is rerun alone, up to 3 times, before it counts as failing
+for pkg in $(grep -E "^(FAIL|---)?\s*FAIL\s+github.com" /tmp/confirm_suite.$$ | awk '{print $2}' | sort -u); do
+  okp=0
+  for try in 1 2 3; do
+    if go test -mod=mod -vet=off -count=1 $pkg > /dev/null 2>&1; then okp=1; break; fi
+  done
+  [ $okp -eq 1 ] && echo "  (package $pkg failed in the full run, passed when rerun alone)" || SUITE="$SUITE $pkg"
+done
+grep -q "^ok" /tmp/confirm_suite.$$ || SUITE="$SUITE no-ok-lines"
+rm -f /tmp/confirm_suite.$$
 [ -z "$SUITE" ] && echo "suite with change: PASS" || echo "suite with change: FAIL: $SUITE"
 cp $D/demo_test.go $PKG/zz_demo_test.go
 go test -mod=mod -vet=off -count=1 $RUNARGS ./$PKG/ > /tmp/confirm_with.$$ 2>&1; RW=$?
